@@ -49,6 +49,9 @@ pub fn run(ctx: &mut Ctx) {
     ctx.run_cases(n, |ctx, idx, rng| {
         let size = *rng.pick(&[0usize, 1, 1, 2]);
         let (desc, tree) = files::cli_game(rng, size, true);
+        // names with spaces, quotes, backslashes and non-ascii characters now and then: both
+        // encodings must deliver the real names
+        let tree = if rng.chance(0.15) { files::fancy_names(&tree) } else { tree };
         let stem = format!("c16-{}-{}", ctx.shard, idx % 64);
         let json_fg = files::write_json(rng, &tree);
         let prep = match Prepared::new(&json_fg.tree) {
@@ -448,7 +451,7 @@ pub fn run(ctx: &mut Ctx) {
         let _ = gen::METHODS;
     });
     ctx.finish(crate::report::extra(
-        "cases (five kinds, rotating): (a) `-m full` with every -d preset (and the default), -t in {1,2,3,10,50,200,0=unlimited with a reachable -r}, -r, -p 1: printed strategies must equal Game::solve(Full, T, r, 1, documented preset) called by the harness on the same tree within 1e-9 (bit-for-bit agreement is counted, not demanded: two separately compiled binaries may differ in the last place of powf), (a') the same with -p {2,4,0}; a larger difference is inconclusive only if the library trace passed within 1e-9 of a regret-matching discontinuity; (b)+(c) the same game and options through nine routes {stdin auto, stdin explicit, file explicit, .txt auto, -o file, Gambit file, Gambit explicit, Gambit .dat auto, Gambit stdin auto}: parsed results identical to `-i game.json` (bitwise where both encodings are exact), -o leaves stdout empty and replaces whatever the output file held before (absent / longer / shorter previous content); (c') a Gambit encoding using payoffs on interior nodes, shared outcomes, outcomes attached by number only (payoffs stated at another node), non-zero constant sums and unnamed/mixed infoset names must print the strategies Game::solve returns on the game the file describes (harness's own semantic tree), within 1e-9 or the tolerance measured from the library trace; (d) signatures of sampled methods on constructed games (a random 3-4 x 3-4 matrix game, or a chance move over two of them; -d vanilla -t 20): -m full repeatable, -m sampled equals -m full bit for bit on the chance-free game, and where the full solution is properly mixed -m sampled (with chance) and -m external never print exactly the -m full result in two repetitions; (e) clip, with and without -r {0.05,0.5,5}: with S the library solution and S' its truncation (by the C18 specification) the printed profile must be one of them, S' if its O1 regret is lower, S if higher or equal (within 1e-9 x scale: don't-care). distinct = hash(file, options/route); non-trivial = game has a decision infoset.",
+        "cases (five kinds, rotating): (a) `-m full` with every -d preset (and the default), -t in {1,2,3,10,50,200,0=unlimited with a reachable -r}, -r, -p 1: printed strategies must equal Game::solve(Full, T, r, 1, documented preset) called by the harness on the same tree within 1e-9 (bit-for-bit agreement is counted, not demanded: two separately compiled binaries may differ in the last place of powf), (a') the same with -p {2,4,0}; a larger difference is inconclusive only if the library trace passed within 1e-9 of a regret-matching discontinuity; (b)+(c) the same game and options through nine routes {stdin auto, stdin explicit, file explicit, .txt auto, -o file, Gambit file, Gambit explicit, Gambit .dat auto, Gambit stdin auto}: parsed results identical to `-i game.json` (bitwise where both encodings are exact), -o leaves stdout empty and replaces whatever the output file held before (absent / longer / shorter previous content); (c') a Gambit encoding using payoffs on interior nodes, shared outcomes, outcomes attached by number only (payoffs stated at another node), repeated chance-action labels, non-zero constant sums and unnamed/mixed infoset names must print the strategies Game::solve returns on the game the file describes (harness's own semantic tree), within 1e-9 or the tolerance measured from the library trace; (d) signatures of sampled methods on constructed games (a random 3-4 x 3-4 matrix game, or a chance move over two of them; -d vanilla -t 20): -m full repeatable, -m sampled equals -m full bit for bit on the chance-free game, and where the full solution is properly mixed -m sampled (with chance) and -m external never print exactly the -m full result in two repetitions; (e) clip, with and without -r {0.05,0.5,5}: with S the library solution and S' its truncation (by the C18 specification) the printed profile must be one of them, S' if its O1 regret is lower, S if higher or equal (within 1e-9 x scale: don't-care). distinct = hash(file, options/route); non-trivial = game has a decision infoset.",
         &["the harness library build has the hooks compiled in but inactive; agreement with the hook-free binary within 1e-9 on every -m full run is itself evidence that the hooks do not change what is computed", "Gambit rational probabilities are only exact for power-of-two denominators; other files are compared within rounding"],
     ));
 }
